@@ -405,6 +405,24 @@ def check_property(pid: str, spec: dict, tier: str, seed: int) -> int:
         except Exception:
             crashes.append(("extra", traceback.format_exc()[-1500:]))
 
+    # a function under contract that can no longer be analysed at all (its target vanished or changed kind, the executor
+    # crashed on it) is a checker error, not a verdict - unless a witness family of that contract, run on the real code, fails:
+    # that is a real failing input of a function whose obligations were discharged on the verified tree
+    for fid, why in list(crashes):
+        c = w.contracts.get(fid)
+        if c is None or not any(oid.startswith(fid) and st == "discharged" for oid, st in ledger.items()):
+            continue
+        for wn in c.witnesses:
+            holds, detail = run_witness(wn)
+            if holds is False:
+                os.makedirs(os.path.join(REPLAYS, pid), exist_ok=True)
+                safe = fid.replace("/", "_").replace(":", "_")[-120:]
+                path = os.path.join(REPLAYS, pid, safe + "__not_analysable.json")
+                with open(path, "w") as f:
+                    json.dump({"property": pid, "obligation": f"{fid}#(all obligations of this function)", "function": fid, "note": "the function could not be analysed any more (" + str(why).strip().splitlines()[-1][:200] + "); its witness family fails on the real code",
+                               "witness": {"name": wn, "detail": detail, "rerun": f".venv/bin/python witnesses/e2e.py {wn}"}, "rerun": f"./check replay {path}"}, f, indent=1, default=str)
+                violations.append({"replay_file": path, "oid": fid})
+                break
     for line in known_lines:
         print(line)
     rc = 0
